@@ -1104,6 +1104,25 @@ func (fx *fctx) intrinsic(st *State, name string, ce *ast.CallExpr) ([]*Value, b
 	case "wrapInt":
 		x := fx.evalInt(st, ce.Args[0])
 		return []*Value{{T: t, Tm: ts.App("wrap_i64", SInt, x)}}, true
+	case "jsonInt", "jsonFloat", "jsonStr":
+		// jsonInt(b, "path"): the integer the JSON document in b holds at the tag path (encoding/json document model)
+		b := fx.eval(st, ce.Args[0])
+		path := ""
+		if tv, ok := e.P.Info.Types[ce.Args[1]]; ok && tv.Value != nil {
+			path = constantString(tv.Value)
+		}
+		if b == nil || b.Sl == nil || path == "" {
+			e.unsup(ce, name+" needs a byte slice and a constant path")
+		}
+		doc := ts.App("json_doc", SInt, b.Sl.Ptr, b.Sl.Len)
+		pid := ts.Int(int64(e.tagOfName("jsonpath:" + path)))
+		switch name {
+		case "jsonInt":
+			return []*Value{{T: t, Tm: ts.App("json_int", SInt, doc, pid)}}, true
+		case "jsonFloat":
+			return []*Value{{T: t, Tm: ts.App("json_flt", SFlt, doc, pid)}}, true
+		}
+		return []*Value{{T: t, Tm: ts.App("json_str", SStr, doc, pid)}}, true
 	case "sameFloat":
 		// sameFloat(a, b): the two floats are the same value (identity, unlike Go's ==, which is false for NaN)
 		a := fx.eval(st, ce.Args[0])
